@@ -307,6 +307,68 @@ Definition h_op_meta (w : hworld) (ti n : nat) (o : metaop) : res * hworld :=
               else (Err EModel, w)
   end.
 
+(* ---- del tree[key] = tree[key].remove(): the lookup reads registry and index only ---- *)
+Definition h_getitem (h : hstate) (k : delkey) : option (list nat) :=
+  match k with
+  | KNode n => Some (if h_live h n then [n] else [])
+  | KDid e fb => if idx_has e (hidx h) then Some (idx_get e (hidx h))
+                 else option_map (fun x => idx_get x (hidx h)) fb
+  | KData d a =>
+      match a with
+      | Some e => if idx_has e (hidx h) then Some (idx_get e (hidx h))
+                  else option_map (fun x => idx_get x (hidx h)) (calc_id (hcalc h) d)
+      | None => option_map (fun x => idx_get x (hidx h)) (calc_id (hcalc h) d)
+      end
+  end.
+
+Definition h_op_del (w : hworld) (ti : nat) (k : delkey) : res * hworld :=
+  match h_get w ti with
+  | None => (Err EModel, w)
+  | Some h =>
+      match h_getitem h k with
+      | None => (Err ECrash, w)
+      | Some [] => (Err EKey, w)
+      | Some [n] => h_op_remove w ti n false false
+      | Some _ => (Err EAmbiguous, w)
+      end
+  end.
+
+(* ---- the shortcuts: the position is read off the pointers ---- *)
+Fixpoint next_after (n : nat) (l : list nat) : option nat :=
+  match l with
+  | [] => None
+  | x :: l' => if Nat.eqb x n then hd_error l' else next_after n l'
+  end.
+
+Definition h_op_shortcut (w : hworld) (ti n : nat) (how : shortcut) (d : dat) (explicit : option did) (k : kind)
+  : res * hworld :=
+  match h_get w ti with
+  | None => (Err EModel, w)
+  | Some h =>
+      match how with
+      | SAppendChild => h_op_add w ti n d explicit k BNone
+      | SPrependChild =>                                   (* before = self.first_child() *)
+          if negb (h_plive h n) then (Err EModel, w)
+          else match hch h n with
+               | c :: _ => h_op_add w ti n d explicit k (BNode c)
+               | [] => h_op_add w ti n d explicit k BNone
+               end
+      | SPrependSibling =>                                 (* self._parent.add_child(.., before=self) *)
+          if negb (h_live h n) then (Err EModel, w)
+          else match hpar h n with
+               | Some p => h_op_add w ti p d explicit (if htyped h then i_kind (hinf h n) else None) (BNode n)
+               | None => (Err EModel, w)
+               end
+      | SAppendSibling =>                                  (* before = self.next_sibling() *)
+          if negb (h_live h n) then (Err EModel, w)
+          else match hpar h n with
+               | Some p => h_op_add w ti p d explicit (if htyped h then i_kind (hinf h n) else None)
+                             (match next_after n (hch h p) with Some nx => BNode nx | None => BNone end)
+               | None => (Err EModel, w)
+               end
+      end
+  end.
+
 (* ---- the heap machine on the covered operations ---- *)
 Definition modelled_heap (o : op) : bool :=
   match o with
@@ -318,6 +380,8 @@ Definition modelled_heap (o : op) : bool :=
   | OSort _ _ _ _ deep => negb deep
   | OMeta _ _ _ => true
   | ONewTree _ _ => true
+  | ODel _ _ => true
+  | OShort _ _ _ _ _ _ => true
   | _ => false
   end.
 
@@ -331,6 +395,8 @@ Definition h_step (w : hworld) (o : op) : res * hworld :=
   | OSort ti p k r false => h_op_sort_flat w ti p k r
   | OMeta ti n o => h_op_meta w ti n o
   | ONewTree ty c => (Ok [length (htrees w)], HW (htrees w ++ [h_empty ty c]) (hnext w))
+  | ODel ti k => h_op_del w ti k
+  | OShort ti n how d e k => h_op_shortcut w ti n how d e k
   | _ => (Err EModel, w)
   end.
 
